@@ -32,8 +32,10 @@ ASSUMPTIONS = [
 def svd_case(draw):
     d = draw(st.sampled_from([2, 2, 3, 3, 4, 5]))
     rows = [draw(st.sampled_from([1, 2, 2, 3, 3, 4])) for _ in range(d)]
+    if draw(st.sampled_from([False, False, False, True])):
+        rows[draw(st.sampled_from([0, d - 1, d - 1]))] = draw(st.sampled_from([16, 32, 40]))      # one long mode (snapshot index)
     index = draw(st.integers(1, d - 1))
-    klass = draw(st.sampled_from(['generic', 'generic', 'constructed', 'preorth']))
+    klass = draw(st.sampled_from(['generic', 'generic', 'constructed', 'preorth', 'illcond']))
     cplx = draw(st.booleans())
     case = {'rows': rows, 'index': index, 'klass': klass, 'cplx': cplx, 'seed': draw(gen.SEED), 'scale_exp': draw(st.sampled_from([0, 0, 0, -12, -4, 5, -20, -30, 15])),
             'overwrite': draw(st.booleans()), 'layout': draw(gen.LAYOUT)}
@@ -51,9 +53,15 @@ def svd_case(draw):
         exps = [0.0]
         for _ in range(k - 1):
             exps.append(exps[-1] - draw(st.sampled_from([0.0, 0.1, 2.0, 2.5, 3.0])))
+        if klass == 'illcond':
+            # every singular value is kept (threshold 0) although the spectrum spans up to eight decades, and the decay is not
+            # carried by one graded core (random gauge on every bond): a solver that squares the condition number shows here
+            exps = [0.0]
+            for _ in range(k - 1):
+                exps.append(max(exps[-1] - draw(st.sampled_from([1.0, 2.0, 3.0])), -8.0))
         case['spectrum_exp'] = exps
         case['side_rank'] = draw(st.integers(1, 3))
-        cut = draw(st.sampled_from(['none', 'mid_gap', 'mid_gap', 'just_below', 'just_below']))
+        cut = draw(st.sampled_from(['none', 'mid_gap', 'mid_gap', 'just_below', 'just_below'])) if klass != 'illcond' else 'none'
         gaps = [j for j in range(1, k) if exps[j - 1] - exps[j] >= 2.0]
         # 'just_below': the threshold sits 20 % below the last kept singular-value ratio (the next one is at least 26 % lower)
         tight = [j for j in range(1, k + 1) if j == k or exps[j - 1] - exps[j] >= 0.1]
@@ -67,7 +75,7 @@ def svd_case(draw):
             case['tight'] = True
             case['threshold'] = float(10.0 ** exps[j - 1] / 1.2)
         else:
-            case['threshold'] = draw(st.sampled_from([0, 0, 1e-12]))
+            case['threshold'] = draw(st.sampled_from([0, 0, 1e-12])) if klass != 'illcond' else 0
         case['max_rank'] = draw(st.sampled_from([None, None, 64]))
         case['flags'] = [draw(st.booleans()), draw(st.booleans())] if klass == 'preorth' else [True, True]
         sep = [j for j in range(1, k) if exps[j - 1] - exps[j] >= 0.1]       # cuts with a unique best approximation
@@ -106,7 +114,10 @@ def build_case(case):
     left = orth_tt_left(rng, rows[:idx], k, case['side_rank'], cplx)
     right_rev = orth_tt_left(rng, rows[idx:][::-1], k, case['side_rank'], cplx)
     right = [np.transpose(c, [3, 1, 2, 0]) for c in right_rev[::-1]]
-    if case['klass'] == 'constructed':
+    if case['klass'] == 'illcond':
+        left[-1] = left[-1] * s[None, None, None, :]
+        cores = dense.gauge([np.array(c) for c in left + right], rng, cplx)
+    elif case['klass'] == 'constructed':
         # s is absorbed into the last left core; then a gauge that keeps both sides orthonormal is all that is applied
         left[-1] = left[-1] * s[None, None, None, :]
         cores = left + right
@@ -189,6 +200,8 @@ def body_svd(case):
         lab.add('order>=4')
     if any(r == 1 for r in rows):
         lab.add('size1mode')
+    if max(rows) >= 16:
+        lab.add('long_mode')
     if 'keep' in case:
         lab.add('real_cut')
         if case.get('tight'):
@@ -202,8 +215,11 @@ def body_svd(case):
     if prov and case['klass'] == 'generic':
         lab.add('library_provenance')
     # guard band: no singular value in the ambiguous zone between 'numerically zero' and 'well above every negligible threshold'
-    assume(not np.any((sig > 1e-13 * s0) & (sig < 1e-5 * s0)))
-    numrank = int(np.sum(sig > 1e-5 * s0))
+    if case['klass'] == 'illcond':
+        numrank = int(np.sum(sig > 1e-13 * s0))          # prescribed spectrum down to 1e-8: everything above rounding is kept
+    else:
+        assume(not np.any((sig > 1e-13 * s0) & (sig < 1e-5 * s0)))
+        numrank = int(np.sum(sig > 1e-5 * s0))
     if numrank < min(M.shape):
         lab.add('rank_deficient')
     if case['klass'] == 'generic':
@@ -270,6 +286,6 @@ def nt(labels):
 
 SUBCHECKS = [
     Sub('svd_pinv', svd_case(), body_svd, nt, quick=600, thorough=8000, shards_quick=8,
-        classes=['generic', 'constructed', 'preorth', 'complex', 'inner_split', 'real_cut',
+        classes=['generic', 'constructed', 'preorth', 'illcond', 'complex', 'inner_split', 'real_cut',
                  'rank_deficient', 'overwrite', 'no_ortho_flags', 'pinv_compared', 'size1mode', 'rescaled', 'cut_just_below_a_singular_value']),
 ]
